@@ -2,6 +2,7 @@ package main
 
 import (
 	"encoding/json"
+	"errors"
 	"fmt"
 	"os"
 	"strings"
@@ -82,8 +83,17 @@ func refine(d *diff, a, b []string) *diff {
 	for _, n := range cnt {
 		onlyB += n
 	}
+	allErrB := true
+	for x, n := range cnt {
+		if n > 0 && !strings.HasPrefix(x, "error(") {
+			allErrB = false
+		}
+	}
 	if onlyA > 0 && onlyB == 0 && allErr {
 		d.Kind = "error-values-dropped"
+	} else if onlyA+onlyB > 0 && allErr && allErrB {
+		// the plans differ only in which error values they emit
+		d.Kind = "error-values-differ"
 	}
 	return d
 }
@@ -239,12 +249,53 @@ type c07 struct {
 	res          *Result
 	mc           *modelCases
 	markPath     string
+	curKey       string // key field of the generated input ("" = unknown)
 	curUnit      int
 	distinctKeys []string
 	distinctSeen map[string]bool
 }
 
 var shrinking bool
+
+var hungPrograms = map[string]bool{}
+
+// confirmHang re-examines an optimized plan that hit the watchdog: the plan as
+// analysed is timed again (the machine may be busy) and the optimized plan gets
+// at least 8 s and at least 40 times that long, twice more.  Only a plan that
+// hangs on all three attempts while the plan as analysed finishes every time is
+// reported as hanging.
+func confirmHang(ref, opt func() runOut) runOut {
+	var b runOut
+	for i := 0; i < 2; i++ {
+		t0 := time.Now()
+		r := withWatchdog(30*time.Second, ref)
+		d := time.Since(t0)
+		if r.Err != nil {
+			// the reference itself is in trouble now: not a finding
+			return runOut{Err: errRefUnstable, Stage: "run"}
+		}
+		limit := 40 * d
+		if limit < 8*time.Second {
+			limit = 8 * time.Second
+		}
+		if limit > 90*time.Second {
+			limit = 90 * time.Second
+		}
+		b = withWatchdog(limit, opt)
+		if b.Err != errTimeout {
+			// finished this time: a slow machine, or one of the runtime's racy
+			// fork deadlocks that hit either plan now and then (not this
+			// property's subject)
+			hangsNotReproduced++
+			return b
+		}
+	}
+	return b
+}
+
+var hangsNotReproduced int
+
+var errRefUnstable = errors.New("reference plan did not finish when re-timed")
 
 func withWatchdog(d time.Duration, f func() runOut) runOut {
 	saved := watchdog
@@ -267,8 +318,13 @@ func checkFile(prog string, input []string, decl *order.SortKey) (d *diff, a, b 
 	}
 	b = runFile(prog, text, planMode{Optimize: true, Decl: decl})
 	if b.Err == errTimeout && !shrinking {
-		// a busy machine is not a hang: confirm with a long watchdog
-		b = withWatchdog(10*time.Second, func() runOut { return runFile(prog, text, planMode{Optimize: true, Decl: decl}) })
+		// a busy machine is not a hang
+		b = confirmHang(func() runOut { return runFile(prog, text, planMode{}) },
+			func() runOut { return runFile(prog, text, planMode{Optimize: true, Decl: decl}) })
+	}
+	if b.Err == errRefUnstable {
+		a.Err, a.Stage = b.Err, "retime"
+		return nil, a, b, st
 	}
 	st = judgeCfg{UniqueField: judgeUnique}.seq(a.Analysed, ordState{Class: clsSeq, IDIntact: judgeUnique != ""})
 	if b.Err != nil {
@@ -304,6 +360,11 @@ func (c *c07) fileCase(tag, prog string, input []string, decl *order.SortKey) {
 	if os.Getenv("C07_VERBOSE") != "" {
 		fmt.Fprintf(os.Stderr, "%s %q decl=%s n=%d\n", tag, prog, declString(decl), len(input))
 	}
+	if hungPrograms[prog] {
+		// already reported as hanging: every further case costs three watchdog periods
+		res.Count(tag + ":skipped-program-already-reported-hanging")
+		return
+	}
 	c.mark(map[string]any{"oracle": tag, "phase": "unopt", "program": prog, "input": input, "declared_sort_key": declString(decl)})
 	if pre := runFile(prog, strings.Join(input, "\n"), planMode{}); pre.Err == nil {
 		c.mark(map[string]any{"oracle": tag, "phase": "opt", "program": prog, "input": input, "declared_sort_key": declString(decl), "kinds": opKinds(pre.Analysed)})
@@ -337,8 +398,12 @@ func (c *c07) fileCase(tag, prog string, input []string, decl *order.SortKey) {
 	if d == nil {
 		return
 	}
+	if strings.HasPrefix(d.Kind, "opt-timeout") {
+		hungPrograms[prog] = true
+	}
 	if !strings.HasPrefix(d.Kind, "opt-timeout") && !stable(func() (*diff, runOut) { d, a, _, _ := checkFile(prog, input, decl); return d, a }, d, a, st) {
 		res.Count(tag + ":unstable-disagreement-ignored")
+		res.Notes = appendNote(res.Notes, fmt.Sprintf("disagreement that did not reproduce on re-runs (ignored): %s %q declared %q [%s]", tag, short(prog, 200), declString(decl), d.Kind))
 		return
 	}
 	// shrink to a small program/input showing the same kind of disagreement
@@ -355,14 +420,19 @@ func (c *c07) fileCase(tag, prog string, input []string, decl *order.SortKey) {
 		}
 	}
 	oracle := "file-opt"
+	keyOfInput := c.curKey
 	if decl != nil {
 		oracle = "file-declared-sortkey"
 		if len(decl.Key) == 0 {
 			oracle = "file-empty-sortkey"
-		} else if nullishKeys(in2, declString(decl)) {
-			// the declared order identifies null, typed null and missing keys
-			oracle += "[nullish-keys]"
+		} else {
+			keyOfInput = declString(decl)
 		}
+	}
+	if keyOfInput != "" && nullishKeys(in2, keyOfInput) {
+		// some record has a null, typed null or missing key: sort, merge,
+		// join and declared orders disagree on where those go
+		oracle += "[nullish-keys]"
 	}
 	res.Fail(Failure{
 		Kind: "oracle",
@@ -407,6 +477,7 @@ func (c *c07) fileUnit(r *Rng, i int) {
 	}
 	g := &progGen{r: r, key: keyPath}
 	prog := g.program()
+	c.curKey = keyPath
 	c.res.Count("programs")
 	ninputs := 2
 	for j := 0; j < ninputs; j++ {
@@ -420,6 +491,9 @@ func (c *c07) fileUnit(r *Rng, i int) {
 		if j == 1 && r.Chance(1, 2) {
 			cfg.N = 110 + r.Intn(200) // several batches
 			cfg.KeysMixed = r.Chance(1, 4)
+			if hasLimit(prog) {
+				cfg.N = 110 + r.Intn(50) // every spill is a file
+			}
 		}
 		input := genInput(r, cfg)
 		c.fileCase("file", prog, input, nil)
@@ -459,7 +533,7 @@ func c07main(o Opts) error {
 		c := newC07(o)
 		return c.replay(o.Replay)
 	}
-	nfile, nlake, ncorpus, nlaw := 150, 22, corpusSize(), 24
+	nfile, nlake, ncorpus, nlaw := 120, 18, corpusSize(), 20
 	limit := 900 * time.Second
 	chunk := 30
 	if o.Tier == "thorough" {
